@@ -511,37 +511,37 @@ type CallbackContract struct { // contract of a function-typed parameter
 }
 
 type Contract struct {
-	Pkg       string // import path
-	Key       string // "(*Buffer).Write", "New", or "Iface.Method" for interface methods
-	Recv      *Param
-	RecvPtr   bool
-	Params    []Param
-	Results   []Param
-	Requires  []*Expr
-	Ensures   []*Expr
-	Assumed   []*Expr // postconditions assumed for callers, not proved on the body
-	GhostDefs []GhostDef
-	ModEach   []ModEach
-	ModAll    []ModAllExcept
-	Asserts   []CallAssert
+	Pkg            string // import path
+	Key            string // "(*Buffer).Write", "New", or "Iface.Method" for interface methods
+	Recv           *Param
+	RecvPtr        bool
+	Params         []Param
+	Results        []Param
+	Requires       []*Expr
+	Ensures        []*Expr
+	Assumed        []*Expr // postconditions assumed for callers, not proved on the body
+	GhostDefs      []GhostDef
+	ModEach        []ModEach
+	ModAll         []ModAllExcept
+	Asserts        []CallAssert
 	ArithUnchecked string // reason: signed overflow assumed not to occur in this function
-	Modifies  []*Expr
-	HasMod    bool
-	PanicWhen *Expr
-	PanicMaybe string // panics are possible under conditions the contract does not characterise (reason)
-	Loops     map[int]*LoopContract
-	Mode      Mode
-	Trusted   bool // assumed, body not verified
-	Inline    bool
-	IsIface   bool
-	Lemma     bool
-	Pos       string
-	File      string
-	Fresh     []string // results that are freshly allocated
-	Callbacks map[string]*CallbackContract
-	Ghost     []string
-	NoVerify  string // reason body is not verified (trusted in-repo)
-	Variants  []string
+	Modifies       []*Expr
+	HasMod         bool
+	PanicWhen      *Expr
+	PanicMaybe     string // panics are possible under conditions the contract does not characterise (reason)
+	Loops          map[int]*LoopContract
+	Mode           Mode
+	Trusted        bool // assumed, body not verified
+	Inline         bool
+	IsIface        bool
+	Lemma          bool
+	Pos            string
+	File           string
+	Fresh          []string // results that are freshly allocated
+	Callbacks      map[string]*CallbackContract
+	Ghost          []string
+	NoVerify       string // reason body is not verified (trusted in-repo)
+	Variants       []string
 }
 
 type GhostField struct {
